@@ -612,6 +612,17 @@ def stage_check(workdir, cfg, parts, tier, kinds=('dft',)):
             ck.band(tag + '_stop_power', cheb, ws, math.pi, None, delta * delta, timeout, vacuity=(None, delta * delta / 10 ** 12))
         if 'pass' in parts:
             ck.band(tag + '_pass_power', cheb, 0.0, wp, (dc * (1 - rip)) ** 2, (dc * (1 + rip)) ** 2, timeout)
+    # band EDGES are otherwise taken from the arguments of the design call (the stage gets what the planner asks for); one edge has an
+    # independent oracle: when down-sampling, the LAST decimating single-phase stage is the final anti-alias filter, so in units of
+    # its output (= the conversion's output) Nyquist frequency its stop band must begin no later than q_spec.stopband_begin
+    if cfg.irate > cfg.orate:
+        des = [r for r in recs if r['what'] == 'design' and r['k'] < 0]
+        if des and abs(des[-1]['Fn']) >= 2:
+            last = des[-1]
+            n_checked += 1
+            ck.detail['post_stage_edge'] = {'Fs': last['Fs'], 'Fn': last['Fn'], 'stopband_begin': d['q']['stopband_begin']}
+            ck.require('post_stage_stop_edge', last['Fs'] <= d['q']['stopband_begin'] * (1 + 1e-12),
+                       'the last decimating stage is designed with its stop band beginning at %.6g x the output Nyquist frequency, later than stopband_begin = %.6g: input just above the output Nyquist is not rejected and aliases into the top of the output band (C02)' % (last['Fs'], d['q']['stopband_begin']))
     if n_checked == 0:
         ck.notes.append('no single-phase designed filter within the tap limit for this configuration')
     res = ck.result(workdir)
